@@ -42,6 +42,22 @@ CHECKS["C10"] = dict(text="Lean theorems: byte account = sum of queued sizes = a
     note=TB + "'intact' covers payload size/type/sequence/overhead (the callback member itself is moved out by design)", ref="§5 C10",
     tech="Lean 4 proof: open-system invariant; model/implementation correspondence")
 
+CHECKS["C05"] = dict(text="Lean theorems over every label sequence of the open stream system (one direction of one connection over the unchanged mechanism functions; the network is an adversarial bag: any in-flight packet is delivered at any time or dropped and handed back, with any remaining route and source; segmentation and ACK loops interleave with first-hop drops; reader labels read / non-blocking read / wait; close): delivered is a prefix of written (and of accepted when idle), every payload packet anywhere (bag, retransmission list, reorder buffer) with number k carries segment k and segments concatenate to what was written, a read hands out exactly the next min(capacity, available) bytes and keeps the rest, end-of-file only after the peer closed and everything written was delivered and nothing after it, close/attach/open leave every queue and counter empty (as-is witness for the pinned close); exact correspondence of the composed world model with real sockets; statement re-evaluated from the stream bytes on implementation traces (prefix, eof, reuse)",
+    note=TB + "one direction at a time with the opposite direction idle (the symmetric instance covers the other; simultaneous full duplex in one run is validated by correspondence, not proved); `deliver` dispatches by packet type, the route-consistency that justifies it is part of C07's theorems", ref="§5c C05",
+    tech="Lean 4 proof: invariant with ghost logs over all histories of the open stream system; model/implementation correspondence")
+CHECKS["C07"] = dict(text="Lean theorems over every history of the open accept system (tick, listen, connect from any client, NAT rewrite of any in-flight packet, SYN delivery in any order, accept by any overload, SYN-ACK delivery, acceptor close): connect sends a SYN iff a listening socket holds the target endpoint, otherwise exactly one refusal timer of 50 ms and nothing else changes; accept completions pair with SYN arrivals in arrival order, one to one, each exactly once; every completed connect has exactly one accept; each side's remote/local endpoints and the reported peer endpoint are the other side's as seen through NAT; each side's send route is the route to the OTHER side's current forwarder (no crosstalk between connections accepted on the same acceptor); exact correspondence + handshake monitor (order, duplicates, stale accepts, refusal cause/delay, views, data pairing) on implementation traces",
+    note=TB + "the open system has no acceptor re-open after close and no user close/cancel/read/write on connectors (covered by correspondence and the monitor only); function-level theorems assume an open bound socket", ref="§5c C07",
+    tech="Lean 4 proof: 34-clause invariant over all histories of the open accept system; model/implementation correspondence")
+CHECKS["C13"] = dict(text="Lean theorems: a NAT hop changes only the source address of a packet (port, payload, every other field, every other channel kept), only a SYN rewrites the channel's visible endpoint (as-is SYN-ACK corruption witness), forwardPkt's NAT case is exactly that function; a datagram through any chain of NAT hops is received with source = sender's port at the LAST hop's external address, payload intact, also for a receive posted before arrival; without NAT the real address is seen (UDP and TCP); over every history of the open accept system the endpoint reported by accept and the accepted socket's remote are the connector's endpoint with the last SYN-NAT's address and the original port while the connector's own local/remote views are unaltered; exact correspondence + NAT monitor incl. a metamorphic twin run of every NAT scenario with its NAT hops removed",
+    note=TB + "IPv4 externals; the open system limits of C07 apply to the TCP clauses", ref="§5c C13",
+    tech="Lean 4 proof: function-level rewrite theorems + invariant of the open accept system; model/implementation correspondence")
+CHECKS["C16"] = dict(text="Lean theorems over every request byte stream and every chunking of it: run(chunks) = buffer-free reference on the concatenation (segmentation independence, also from any mid-stream state), exactly one response per well-formed framed request in order until close / keep-alive off / stall / exception, content-length = body length, byte ranges, keep-alive iff configured and no Connection: close (case-insensitive), malformed / EOF / error closes only this connection and re-arms accept unless stopping, stalled paths never answered, stop() closes the acceptor, never re-arms and frees the port, no out-of-bounds access or signed overflow on any stream (checked-memory model); exact correspondence of the composed world model with the real sim::http_server inside the simulator; statement re-evaluated on what the clients receive",
+    note=TB + "`Framed` (first blank line ends the request) is a necessary extra condition on well-formed requests (example in the file); fixed bodies < 2^31; a client that closes before receiving every response byte is outside the monitor (TCP-level limitation recorded in DESIGN.md)", ref="§5c C16",
+    tech="Lean 4 proof: refinement of the buffered server to a stream reference + invariants; model/implementation correspondence")
+CHECKS["C20"] = dict(text="Lean theorems: cutting a buffer at the MSS yields non-empty pieces of at most MSS bytes, all but the last exactly MSS, concatenating to the buffer; TCP segments are the per-buffer cuts in order, each goes into one packet unaltered; connect sets MSS = path MTU (client side, with the counterexample showing the needed hypothesis) and attach sets it from the connector's REAL endpoint (accepted side); no function changes the configuration or another socket's MSS; drop hand-back and retransmission keep id, payload, length, type and overhead; over every history of the open stream system every segment and every payload packet is non-empty and at most the writer's MSS and packet k carries segment k; UDP: DF and size > MTU reports sent and forwards nothing, otherwise exactly one packet with the whole payload and DF is irrelevant; exact correspondence + MTU monitor (per-direction path MTU, NAT-aware, same seq => same bytes on retransmission, DF semantics)",
+    note=TB + "stated for 0 < MTU (an MTU of 0 makes the real segmentation loop spin: configuration error)", ref="§5c C20",
+    tech="Lean 4 proof: segmentation lemmas + invariant of the open stream system; model/implementation correspondence")
+
 def main():
     props = [json.loads(l)["id"] for l in open(os.path.join(ROOT, "properties.jsonl"))]
     checks = []
